@@ -1,4 +1,5 @@
 import Jp.Lemmas.Valid
+import Jp.Lemmas.C12
 /-
   C12 — Splitting and range-slicing return the right sub-list as a borrowed view.
   Model: the eight `PointerIndex::get` loops of `src/pointer/slice.rs` (state idx/offset/start/end),
@@ -19,91 +20,279 @@ def spanOf (p : Bytes) (r : Option (Nat × Nat)) : Res Unit (Option Span) :=
 
 theorem getRange_spec (p : Bytes) (a b : Nat) (h : validPtr p = true) :
     getRange p a b = spanOf p (rangeSpec (count p) a b) := by
-  sorry
+  obtain ⟨ts, rfl, hts, hns, hv⟩ := valid_decomp h
+  unfold getRange spanOf count rangeSpec
+  rw [hts]
+  by_cases hba : b < a
+  · have : ¬ a ≤ b := by omega
+    simp [hba, this]
+  · rw [if_neg hba]
+    have hab : a ≤ b := by omega
+    have h1 := rangeLoop_so a b ts 0 0 none (Nat.zero_le _) hab
+    have h2 := rangeLoop_rest a b ts 0 0 none (Nat.zero_le _)
+    generalize rangeLoop a b ts 0 0 none = r at h1 h2
+    obtain ⟨idx, offset, so, eo⟩ := r
+    simp only [Nat.sub_zero, Nat.zero_add, Nat.zero_le, true_and] at h1 h2
+    by_cases hb : b < ts.length
+    · rw [if_pos hb] at h2
+      have ha : a < ts.length := by omega
+      rw [if_pos ha] at h1
+      simp only [Prod.mk.injEq] at h2
+      obtain ⟨rfl, rfl, rfl⟩ := h2
+      subst h1
+      simp only [if_true]
+      rw [sliceChecked_off ts a idx hab]
+      have : a ≤ idx ∧ a < ts.length ∧ idx ≤ ts.length := by omega
+      simp [this]
+    · rw [if_neg hb] at h2
+      simp only [Prod.mk.injEq] at h2
+      obtain ⟨rfl, rfl, rfl⟩ := h2
+      subst h1
+      by_cases hbn : ts.length = b
+      · subst hbn
+        by_cases ha : a < ts.length
+        · simp only [if_true, if_pos ha]
+          rw [sliceChecked_off ts a ts.length hab]
+          have : a ≤ ts.length ∧ a < ts.length ∧ ts.length ≤ ts.length := by omega
+          simp [this]
+        · simp [ha]
+      · have : ¬ (a ≤ b ∧ a < ts.length ∧ b ≤ ts.length) := by omega
+        simp only [if_neg hbn, if_neg this]
+        split <;> simp_all
 
 theorem getRangeFrom_spec (p : Bytes) (a : Nat) (h : validPtr p = true) :
     getRangeFrom p a = spanOf p (rangeFromSpec (count p) a) := by
-  sorry
+  obtain ⟨ts, rfl, hts, hns, hv⟩ := valid_decomp h
+  unfold getRangeFrom spanOf count rangeFromSpec
+  rw [hts, rangeFromLoop_eq _ _ _ _ (Nat.zero_le _)]
+  simp only [Nat.sub_zero, Nat.zero_add]
+  by_cases hlt : a < ts.length
+  · simp only [if_pos hlt, Option.map_some]
+    rw [ofToks_length]; exact sliceChecked_off ts a ts.length (by omega)
+  · simp [if_neg hlt]
 
 theorem getRangeTo_spec (p : Bytes) (b : Nat) (h : validPtr p = true) :
     getRangeTo p b = spanOf p (rangeToSpec (count p) b) := by
-  sorry
+  obtain ⟨ts, rfl, hts, hns, hv⟩ := valid_decomp h
+  unfold getRangeTo spanOf count rangeToSpec
+  rw [hts, rangeToLoop_eq _ _ _ _ (Nat.zero_le _)]
+  simp only [Nat.sub_zero, Nat.zero_add]
+  have hs := sliceChecked_off ts 0 b (Nat.zero_le _)
+  rw [off_zero] at hs
+  by_cases hlt : b < ts.length
+  · have : b ≤ ts.length := by omega
+    simp only [if_pos hlt, if_pos this, if_true, Option.map_some, off_zero]
+    exact hs
+  · simp only [if_neg hlt]
+    by_cases hbn : ts.length = b
+    · subst hbn
+      simp only [if_true, Nat.le_refl, Option.map_some, off_zero]
+      exact hs
+    · have : ¬ b ≤ ts.length := by omega
+      simp [hbn, this]
 
 theorem getRangeIncl_spec (p : Bytes) (a b : Nat) (h : validPtr p = true) :
     getRangeIncl p a b = spanOf p (rangeInclSpec (count p) a b) := by
-  sorry
+  obtain ⟨ts, rfl, hts, hns, hv⟩ := valid_decomp h
+  unfold getRangeIncl spanOf count rangeInclSpec
+  rw [hts]
+  by_cases hba : b < a
+  · have : ¬ a ≤ b := by omega
+    simp [hba, this]
+  · rw [if_neg hba]
+    have hab : a ≤ b := by omega
+    have h1 := rangeInclLoop_fst a b ts 0 0 none (Nat.zero_le _) hab
+    have h2 := rangeInclLoop_snd a b ts 0 0 none (Nat.zero_le _)
+    generalize rangeInclLoop a b ts 0 0 none = r at h1 h2
+    obtain ⟨so, eo⟩ := r
+    simp only [Nat.sub_zero, Nat.zero_add, Nat.zero_le, true_and] at h1 h2
+    subst h1 h2
+    by_cases hb : b < ts.length
+    · have ha : a < ts.length := by omega
+      simp only [if_pos hb, if_pos ha]
+      rw [sliceChecked_off ts a (b + 1) (by omega)]
+      simp [hab, hb]
+    · have : ¬ (a ≤ b ∧ b < ts.length) := by omega
+      simp only [if_neg hb, if_neg this]
+      split <;> simp_all
 
 theorem getRangeToIncl_spec (p : Bytes) (b : Nat) (h : validPtr p = true) :
     getRangeToIncl p b = spanOf p (rangeToInclSpec (count p) b) := by
-  sorry
+  obtain ⟨ts, rfl, hts, hns, hv⟩ := valid_decomp h
+  unfold getRangeToIncl spanOf count rangeToInclSpec
+  rw [hts, rangeToInclLoop_eq _ _ _ _ (Nat.zero_le _)]
+  simp only [Nat.sub_zero, Nat.zero_add]
+  have hs := sliceChecked_off ts 0 (b + 1) (Nat.zero_le _)
+  rw [off_zero] at hs
+  by_cases hlt : b < ts.length
+  · simp only [if_pos hlt, Option.map_some, off_zero]
+    exact hs
+  · simp [if_neg hlt]
 
 theorem getRangeFull_spec (p : Bytes) (h : validPtr p = true) :
     getRangeFull p = spanOf p (rangeFullSpec (count p)) := by
-  sorry
+  obtain ⟨ts, rfl, hts, hns, hv⟩ := valid_decomp h
+  unfold getRangeFull spanOf count rangeFullSpec
+  rw [hts]
+  simp [off_zero, ofToks_length]
 
 /-- all nine `Bound` pairings, for every pair of bounds (no restriction to `usize`: in particular
     `Excluded(usize::MAX)` gives `none`, not a panic and not a wrapped range) -/
 theorem getBounds_spec (p : Bytes) (lo hi : Bound) (h : validPtr p = true) :
     getBounds p lo hi = spanOf p (boundsSpec (count p) lo hi) := by
-  sorry
+  cases lo with
+  | included s =>
+    cases hi with
+    | included e => exact getRangeIncl_spec p _ _ h
+    | excluded e => exact getRange_spec p _ _ h
+    | unbounded => exact getRangeFrom_spec p _ h
+  | excluded s =>
+    by_cases hs : s < usizeMax
+    · cases hi with
+      | included e => simp only [getBounds, boundsSpec, checkedSucc, if_pos hs]; exact getRangeIncl_spec p _ _ h
+      | excluded e => simp only [getBounds, boundsSpec, checkedSucc, if_pos hs]; exact getRange_spec p _ _ h
+      | unbounded => simp only [getBounds, boundsSpec, checkedSucc, if_pos hs]; exact getRangeFrom_spec p _ h
+    · cases hi <;> simp [getBounds, boundsSpec, checkedSucc, if_neg hs, spanOf]
+  | unbounded =>
+    cases hi with
+    | included e => exact getRangeToIncl_spec p _ h
+    | excluded e => exact getRangeTo_spec p _ h
+    | unbounded => exact getRangeFull_spec p h
 
 /-- the bytes of the span for token range `[a, b)` are exactly the text of that sub-list of tokens -/
 theorem span_is_sublist (p : Bytes) (a b : Nat) (h : validPtr p = true) (hab : a ≤ b)
     (hb : b ≤ count p) :
     (p.drop (off (tokens p) a)).take (off (tokens p) b - off (tokens p) a) =
       ofToks (((tokens p).drop a).take (b - a)) := by
-  sorry
+  obtain ⟨ts, rfl, hts, hns, hv⟩ := valid_decomp h
+  rw [hts, drop_off]
+  have e : off ts b - off ts a = off (ts.drop a) (b - a) := by
+    have := off_add_drop ts a (b - a)
+    have e2 : a + (b - a) = b := by omega
+    rw [e2] at this; omega
+  rw [e, take_off]
 
 /-- no range form and no bound value makes any `get` panic -/
 theorem no_panic (p : Bytes) (lo hi : Bound) (a b : Nat) (h : validPtr p = true) (m : String) :
     getBounds p lo hi ≠ .panic m ∧ getRange p a b ≠ .panic m ∧ getRangeFrom p a ≠ .panic m ∧
     getRangeTo p b ≠ .panic m ∧ getRangeIncl p a b ≠ .panic m ∧ getRangeToIncl p b ≠ .panic m := by
-  sorry
+  rw [getBounds_spec p lo hi h, getRange_spec p a b h, getRangeFrom_spec p a h, getRangeTo_spec p b h,
+    getRangeIncl_spec p a b h, getRangeToIncl_spec p b h]
+  simp [spanOf]
 
 /-- `Excluded(usize::MAX)` as a start bound yields `None` -/
 theorem excluded_max_none (p : Bytes) (hi : Bound) : getBounds p (.excluded usizeMax) hi = .ok none := by
-  sorry
+  cases hi <;> simp [getBounds, checkedSucc]
 
 /-- `split_at(k)` succeeds exactly when byte `k` is a separator -/
 theorem splitAt_iff (p : Bytes) (k : Nat) : (splitAt p k).isSome = true ↔ p[k]? = some 47 := by
-  sorry
+  unfold splitAt
+  by_cases hk : p[k]? = some 47 <;> simp [hk]
 
 /-- … and its pieces are valid pointers that re-concatenate to the original -/
 theorem splitAt_concat (p h t : Bytes) (k : Nat) (hp : validPtr p = true) (hs : splitAt p k = some (h, t)) :
     h ++ t = p ∧ validPtr h = true ∧ validPtr t = true ∧ tokens p = tokens h ++ tokens t := by
-  sorry
+  unfold splitAt at hs
+  by_cases hk : p[k]? = some 47
+  · simp only [hk, ne_eq, not_true_eq_false, if_false, Option.some.injEq, Prod.mk.injEq] at hs
+    obtain ⟨rfl, rfl⟩ := hs
+    refine ⟨List.take_append_drop k p, ?_⟩
+    have hd := take_append_drop_of_getElem? p k 47 hk
+    generalize ha : p.take k = a at *
+    generalize hb : p.drop (k + 1) = b at *
+    have hpe : p = a ++ 47 :: b := by rw [← hd, ← ha]; exact (List.take_append_drop k p).symm
+    rw [hd]
+    subst hpe
+    cases a with
+    | nil =>
+      refine ⟨by simp [validPtr], by simpa using hp, ?_⟩
+      simp [tokens, splitOn]
+    | cons c a' =>
+      simp only [validPtr, List.cons_append, List.isEmpty_cons, List.head?_cons, Bool.false_or,
+        Bool.and_eq_true, beq_iff_eq, Option.some.injEq] at hp
+      obtain ⟨rfl, hto⟩ := hp
+      rw [tildesOk_slash_cons, tildesOk_append_slash'] at hto
+      simp only [Bool.and_eq_true] at hto
+      refine ⟨?_, ?_, ?_⟩
+      · simp [validPtr, tildesOk_slash_cons, hto.1]
+      · simp [validPtr, tildesOk_slash_cons, hto.2]
+      · simp [tokens, splitOn, splitOn_append_slash']
+  · simp [hk] at hs
 
 /-- `split_front` is head / tail of the token list -/
 theorem splitFront_spec (p : Bytes) (h : validPtr p = true) :
     splitFront p = match tokens p with
       | [] => none
       | t :: ts => some (t, ofToks ts) := by
-  sorry
+  obtain ⟨ts, rfl, hts, hns, hv⟩ := valid_decomp h
+  rw [hts]
+  cases ts with
+  | nil => simp [ofToks, splitFront]
+  | cons t ts => simp only []; exact splitFront_ofToks_cons t ts (hns t (by simp))
 
 /-- `split_back` is init / last of the token list -/
 theorem splitBack_spec (p : Bytes) (h : validPtr p = true) :
     splitBack p = match (tokens p).getLast? with
       | none => none
       | some t => some (ofToks (tokens p).dropLast, t) := by
-  sorry
+  obtain ⟨ts, rfl, hts, hns, hv⟩ := valid_decomp h
+  rw [hts]
+  rcases List.eq_nil_or_concat ts with rfl | ⟨us, t, rfl⟩
+  · simp [ofToks, splitBack, rsplitOnce]
+  · simp only [List.concat_eq_append, List.getLast?_append, List.getLast?_singleton, Option.some_or, ne_eq,
+      List.cons_ne_self, not_false_eq_true, List.dropLast_append_of_ne_nil, List.dropLast_singleton, List.append_nil]
+    exact splitBack_ofToks_snoc us t (hns t (by simp))
 
 theorem parent_spec (p : Bytes) (h : validPtr p = true) :
     parent p = if (tokens p).isEmpty then none else some (ofToks (tokens p).dropLast) := by
-  sorry
+  have hb := splitBack_spec p h
+  unfold splitBack at hb
+  unfold parent
+  rw [hb]
+  rcases List.eq_nil_or_concat (tokens p) with he | ⟨us, t, he⟩
+  · simp [he]
+  · simp [he]
 
 /-- the remainder of `split_front` is a view: the bytes of the span are the remainder's text -/
 theorem splitFrontV_view (p tok : Bytes) (sp : Span) (h : splitFrontV p = some (tok, sp)) :
     ∃ rem, splitFront p = some (tok, rem) ∧ (p.drop sp.1).take (sp.2 - sp.1) = rem := by
-  sorry
+  cases p with
+  | nil => simp [splitFrontV] at h
+  | cons c rest =>
+    simp only [splitFrontV] at h
+    simp only [splitFront]
+    cases hf : find 47 rest with
+    | none =>
+      simp only [hf, Option.some.injEq, Prod.mk.injEq] at h
+      obtain ⟨rfl, rfl⟩ := h
+      exact ⟨[], rfl, by simp⟩
+    | some idx =>
+      simp only [hf, Option.some.injEq, Prod.mk.injEq] at h
+      obtain ⟨rfl, rfl⟩ := h
+      refine ⟨rest.drop idx, rfl, ?_⟩
+      have e : 1 + idx = idx + 1 := by omega
+      simp only [e, List.drop_succ_cons]
+      apply List.take_of_length_le
+      simp
 
 theorem splitBackV_view (p tok : Bytes) (sp : Span) (h : splitBackV p = some (sp, tok)) :
     ∃ par, splitBack p = some (par, tok) ∧ (p.drop sp.1).take (sp.2 - sp.1) = par := by
-  sorry
+  unfold splitBackV at h
+  cases hr : rfind 47 p with
+  | none => simp [hr] at h
+  | some idx =>
+    simp only [hr, Option.some.injEq, Prod.mk.injEq] at h
+    obtain ⟨rfl, rfl⟩ := h
+    refine ⟨p.take idx, ?_, by simp⟩
+    unfold splitBack
+    exact rfind_some_rsplitOnce 47 p idx hr
 
 /-- `get(..k)` and `get(k..)` re-concatenate to the original -/
 theorem take_drop_join (p : Bytes) (k : Nat) (h : validPtr p = true) (hk : k ≤ count p) :
     ofToks ((tokens p).take k) ++ ofToks ((tokens p).drop k) = p := by
-  sorry
+  have _ := hk
+  rw [← ofToks_append, List.take_append_drop]
+  exact ofToks_tokens p (validPtr_shape h)
 
 example : getBounds [47, 97, 47, 98] (.excluded usizeMax) .unbounded = .ok none := by decide
 example : getRange [] 0 0 = .ok none ∧ getRangeTo [] 0 = .ok (some (0, 0)) := by decide
